@@ -284,6 +284,9 @@ def conclude(pid, tier, seed, merged, cfg, t0, extra_cov=None):
     if status == 0 and merged["evaluations"] < minimum:
         log("HARNESS-ERROR: property=%s observed only %d evaluations (< %d): nothing decided" % (pid, merged["evaluations"], minimum))
         status = 2
+    if status == 0 and not merged["samples"]:
+        log("HARNESS-ERROR: property=%s the run recorded no sample cases" % pid)
+        status = 2
     if status == 0 and len(merged["distinct"]) < 2:
         log("HARNESS-ERROR: property=%s fewer than 2 distinct non-trivial cases observed" % pid)
         status = 2
